@@ -47,10 +47,63 @@ claim('C04', 'proof',
       'quadruplets decision = d(c,d)-d(a,b), predict = sign; swap and monotonicity lemmas from the contracts.',
       'trusted: npvc encoder; z3; A-real; pair_score / check_input used through their contracts (verified in C01/C06); roc_auc_score is scikit-learn (uninterpreted); numpy comparison/sign/mean semantics (assumed, pointwise axioms)',
       'symbolic execution at a generic batch index + lemmas over contracts', ['roc_auc_score is scikit-learn (uninterpreted function of labels and decision values)'])
-META['C03'] = dict(level='proof', level_text='', level_note='', explanation='wip', assumptions=[], technique=TECH)
-META['C05'] = dict(level='proof', level_text='', level_note='', explanation='wip', assumptions=[], technique=TECH)
-META['C20'] = dict(level='proof', level_text='', level_note='', explanation='wip', assumptions=[], technique=TECH)
-META['C07'] = dict(level='proof', level_text='', level_note='', explanation='wip', assumptions=[], technique=TECH)
-META['C12'] = dict(level='other', level_text='', level_note='', explanation='wip', assumptions=[], technique=TECH)
-META['C09'] = dict(level='other', level_text='', level_note='', explanation='wip', assumptions=[], technique=TECH)
-META['C08'] = dict(level='proof', level_text='', level_note='', explanation='wip', assumptions=[], technique=TECH)
+
+
+BOUNDED = 'bounded run-time contracts on the real code (standins/) cover the rest and are reported as bounded -- not proved'
+
+claim('C03', 'proof',
+      'fit / _fit of all 17 estimators and the helpers they call are executed symbolically from the real source at the shape / dtype / ownership / exception-flow level (loops cut by inferred '
+      'shape invariants, callees by contract): every normal exit returns self with components_ a real-float (k, n_features) array of the documented k, n_features_in_ = feature count of this fit, '
+      'transform maps (n,d) to (n,k); only declared exception types escape; every scikit-learn/numpy call binds against the installed signature. PSD of M = L^T L is the C02 lemma. '
+      'Finiteness is bounded (stand-in over the option product of the property).',
+      'trusted: npvc encoder; z3; shape/dtype contracts of ~130 numpy/scipy/scikit-learn callables (assumed, listed in the evidence; signature-checked); partial correctness; known findings F18/F19 (LDA rank truncation, thorough stand-in only)',
+      'shape-level symbolic execution of every fit; ' + BOUNDED,
+      ['finiteness of components_ is outside the real-arithmetic model (bounded stand-in)', 'shape/dtype behaviour of external solvers as listed in trusted_base'])
+claim('C05', 'proof',
+      'tuple formation (column i of the formed tuples is the preprocessor applied to column i of the indicators, in order), preprocessor-not-consulted on formed data, PreprocessorError wrapping, '
+      'array-like -> ArrayIndexer / callable used as is are proved on the real validators and _check_preprocessor; every data-taking method states its clauses for both representations '
+      '(formed, or indices + preprocessor) through the validator contract, so equality of outputs follows.',
+      'trusted: npvc encoder; z3; user preprocessors are functions of their argument returning arrays of rank <= 3; ArrayIndexer indexing is numpy fancy indexing (assumed)',
+      'symbolic execution of the validators with an uninterpreted preprocessor; ' + BOUNDED, ['a user preprocessor is a function of its argument (papply)'])
+claim('C07', 'other',
+      'proved on the real constraints.py: shapes, at-most-n_constraints, same_length, chunk vector shape, triplet shape, call well-formedness, all randomness drawn from the given random_state, and -- through the ghost '
+      '"value frame" of index arrays -- that every returned index refers to the CALLER\'s array (this is the clause F3 violated). Pair soundness (same/different known label, distinct endpoints, no repeats), chunk '
+      'disjointness/size and the k-NN characterisation are decided by the bounded-exhaustive stand-in (all label vectors of length <= 6/7 over {-1,0,1,2}).',
+      'trusted: npvc encoder; z3; libspec of np.where / np.unique / randint / choice / NearestNeighbors; set-valued invariants of _pairs and chunks are NOT proved (bounded only)',
+      'shape + index-frame symbolic execution; ' + BOUNDED, ['rejection sampling finds at least one pair when one exists (ghost hypothesis of the property)'])
+claim('C08', 'proof',
+      'call-structure refinement proved on the six real supervised fit bodies with a ghost call log: the base _fit receives exactly wrap_pairs(X\', Constraints(y\').positive_negative_pairs(n_c, random_state=self.random_state)) '
+      '(ITML/MMC/SDML; n_c = n_constraints or 20*n_classes^2), X\'[column_stack(...same_length=True...)] with weights=self.weights (LSML), chunks(n_chunks, chunk_size, random_state) (RCA), X\'[generate_knntriplets(X\', k_genuine, k_impostor)] (SCML); '
+      'the index-frame obligation shows those indices refer to X\'. Unknown labels are excluded by the C07 contracts.',
+      'trusted: npvc encoder; z3; equality is identity of the symbolic values in the call log (same array object / same term); the base _fit contracts are verified separately (C03)',
+      'ghost call log + provenance tags on the real supervised fits; ' + BOUNDED, [])
+claim('C09', 'other',
+      'deductive: Covariance / RCA / LFDA fit bodies at the shape, dtype, exception and seeding level; LFDA loop write-set clause (the local-scale index is not carried across classes, F13) and value invariant k >= 0. '
+      'The documented formulas themselves (pinv of the covariance, whitening of the within-chunk covariance, Sugiyama\'s pairwise scatter matrices, eigen-ordering and embedding scaling) are decided by the bounded stand-in '
+      'against an independent O(n^2) evaluation (this is where F6, F8, F13 and the sign error F16 were found). The scatter algebra planned in DESIGN.md 3/C09 is NOT proved: the design-time reading of lfda.py:136 was wrong.',
+      'trusted: as C03; np.cov / pinvh / eigh / eigsh are numpy/scipy; known finding F8 (LFDA local scale axis) is not repaired',
+      'shape-level symbolic execution + loop write-set clause; ' + BOUNDED, ['eigen-solvers and covariance are numpy/scipy (assumed)'])
+claim('C12', 'other',
+      'deductive: LSML _fit at the shape/ownership level (loops with inferred invariants, numeric widening, Optional M_best), weights copied before normalisation (F4b), and the dataflow clauses "constraint weights reach the objective" / '
+      '"reach the search direction" on _comparison_loss / _gradient (F9). Objective value, descent, SPD, prior fixpoint and stationarity at early stop are decided by the bounded stand-in with an independent objective/gradient.',
+      'trusted: as C03; known finding F21 (quadruplet with a collapsed second pair -> NaN gradient)', 'shape-level symbolic execution + dataflow clauses; ' + BOUNDED,
+      ['loss / gradient formulas are checked at run time only (bounded)'])
+claim('C16', 'other',
+      'deductive: _validate_calibration_params raises ValueError exactly for strategy outside the four names, min_rate not a number in [0,1] (rate strategies), beta not a number (f_beta) -- total case analysis over the python types; '
+      'ITML / MMC / SDML.fit call it first (ghost call log: before _fit and calibrate_threshold) and with invalid parameters leave with ValueError before any call or assignment. '
+      'Optimality of the stored threshold is decided by the bounded-exhaustive stand-in (every labelling x every distance vector over a 3-value grid, n <= 5 quick / <= 6-7 thorough).',
+      'trusted: npvc encoder; z3; roc_curve / precision_recall_curve are scikit-learn', 'total case analysis + call-order clauses; bounded-exhaustive enumeration for optimality', [])
+claim('C17', 'proof',
+      'frames and ownership for every function reachable from fit and from the query methods: each in-place write (item/augmented assignment, out=, fill_diagonal) targets an array proved to be owned (allocated on the path), never a '
+      'parameter, a hyper-parameter array or a may-alias of one (F4a, F4b); query methods assign no attribute; fitted model independent of the pre-state of the fitted attributes (refit cases with symbolic earlier state, F5); '
+      'bookkeeping attributes assigned by every fit (F14); every random draw comes from check_random_state(self.random_state) and no unseeded solver start is used (F11); get_mahalanobis_matrix / initialisers return fresh arrays.',
+      'trusted: npvc encoder; z3; aliasing facts of numpy operations (view / may-alias / fresh) in libspec; clone and pickle are scikit-learn / CPython (bounded histories only); known finding F17 (clone after pickle, deprecated aliases)',
+      'ownership / frame / non-interference obligations on the symbolic executions of C03; ' + BOUNDED, ['clone / pickle and multi-step histories are explored by the stand-in only'])
+claim('C20', 'other',
+      'deductive: _check_sdp_from_eigen (NonPSDError iff an eigenvalue < -tol, ValueError iff tol < 0, definite-flag, and "a spectrum with an exactly zero eigenvalue is never definite" -- the clause F20 violated), '
+      '_auto_select_init (documented rule, exact), components_from_metric / _initialize_metric_mahalanobis / _initialize_components / _pseudo_inverse_from_eig at the shape, dtype, freshness (copies of user arrays), exception and seeding level for every option. '
+      'L^T L = M, Penrose equations and option meanings are decided by the bounded stand-in over matrices of size 1..8, every rank, spectra over 16 orders of magnitude.',
+      'trusted: npvc encoder; z3; cholesky / eigh / np.cov / make_spd_matrix / PCA / LDA contracts (assumed)', 'case analysis + shape-level symbolic execution; ' + BOUNDED,
+      ['value-level conversion identities are not yet discharged deductively (Lean lemmas exist, see lean/)'])
+for _p in ('C10', 'C11', 'C13', 'C14', 'C15', 'C19'):
+  NOT_YET[_p] = 'deductive obligations specific to this property are not built yet (the fit bodies are under shape-level contract in C03/C17; a bounded stand-in exists in standins/); see DESIGN.md'
